@@ -84,4 +84,16 @@ let do_enumext toks =
      | Outcome.Err -> "err" | Outcome.Panic -> "panic" | Outcome.Unmodelled -> "unmodelled")
   | _ -> "bad-case"
 
-let () = register "enumapi" do_enumapi; register "enummod" do_enummod; register "enumext" do_enumext
+(* enumproc: every Process / GetModule on the same Modules reports the errors of the member list again, and a type
+   that restricts a typedef (own enum/bit list) gets its table from the listed members as a direct type does *)
+let do_enumproc toks =
+  match toks with
+  | [bits; _form; steps; mems] ->
+    (match Enum.run_members (bits = "1") (parse_members mems) with
+     | Outcome.Ok (e, errs) ->
+       let n = Str_.length steps in
+       if errs <> [] then "steps=" ^ Str_.make n 'e' ^ " err" else "steps=" ^ Str_.make n 'o' ^ " " ^ views e
+     | Outcome.Err -> "err" | Outcome.Panic -> "panic" | Outcome.Unmodelled -> "unmodelled")
+  | _ -> "bad-case"
+
+let () = register "enumproc" do_enumproc; register "enumapi" do_enumapi; register "enummod" do_enummod; register "enumext" do_enumext
